@@ -182,7 +182,7 @@ pub fn run(args: &Args) {
         cfg.compression = Some((["gzip", "none"][k].to_string(), None));
         if let Ok(Ok(p)) = guarded(|| gen_::build(&cfg, &wd)) {
             let mut out = vec![];
-            p.write(&mut out).unwrap();
+            p.write(&mut Plain(&mut out)).unwrap();
             carriers.push((format!("built{k}"), out));
         }
     }
